@@ -985,6 +985,13 @@ fn c16_misc(_input: &Input, obs: &mut Obs) -> Result<(), Fail> {
                     if resp.status() != status_of(*code) {
                         return Err(Fail::new("C16:status", format!("a response created with status {} reports {:?}", code, resp.status())));
                     }
+                    // a write of some other response into a sink that breaks part-way comes first:
+                    // nothing of it may show in what is written next
+                    {
+                        let other = Response::new(version_of(1 - v), status_of(STATUS[(k.wrapping_add(3)) % STATUS.len()].0));
+                        let mut broken = FailSink { out: Vec::new(), room: k.wrapping_mul(7) % 40, chunk: 1 + k % 9 };
+                        let _ = other.write_all(&mut broken);
+                    }
                     let mut sink = Drip { out: Vec::new(), k, interrupt_first };
                     n += 1;
                     if let Err(e) = resp.write_all(&mut sink) {
@@ -1181,9 +1188,22 @@ fn c16_uri_random(input: &Input, obs: &mut Obs) -> Result<(), Fail> {
     let mut s = Src::new(input.bytes());
     let n = s.range(1, 40);
     let parts = ["http://", "http:/", "/", "//", "a", "host", ":80", ".", "%2F", "\u{e9}", "?q=/", "#", "HTTP://", "https://", "h", "t", "p", ":"];
+    // characters that are whitespace to `str::trim` but not separators of the request line
+    let blanks = ["\t", "\u{b}", "\u{c}", "\u{85}", "\u{a0}", "\u{2003}", "\u{3000}", "\r"];
     let mut u = String::new();
+    if s.chance(40) {
+        u.push_str(blanks[s.below(blanks.len())]);
+        obs.label("blank_at_the_start_of_the_uri");
+    }
     for _ in 0..n {
+        if s.chance(10) {
+            u.push_str(blanks[s.below(blanks.len())]);
+        }
         u.push_str(parts[s.below(parts.len())]);
+    }
+    if s.chance(40) {
+        u.push_str(blanks[s.below(blanks.len())]);
+        obs.label("blank_at_the_end_of_the_uri");
     }
     obs.nontrivial = uri_check(&u)?;
     if u.starts_with("http://") {
@@ -1812,6 +1832,40 @@ fn c05_check_f(items: &[(u8, u16, Vec<Call>)], sink_plan: &[u8], fails: &[Option
         }
         concat.extend_from_slice(&out);
         models.push(model);
+    }
+    // (v) the same responses queued on a connection and written out in drawn chunks: the stream
+    // receives the concatenation of the serialisations, however the writes were split
+    {
+        use crate::connrun::ConnRun;
+        use crate::stream::WriteEv;
+        let mut run = ConnRun::new(Vec::new(), None, false);
+        for (v, code, calls) in items {
+            run.conn.enqueue_response(build_real(*v, *code, calls));
+        }
+        let mut i = 0usize;
+        let mut guard = 0;
+        let mut last_intr = false;
+        // byte-sized writes for small totals; for large ones every write takes at least 1/16 of
+        // what is offered (the prefix is removed from the buffer after each write)
+        let floor: u16 = if concat.len() > 4000 { 4096 } else { 0 };
+        while run.conn.pending_write() && guard < 100_000 {
+            guard += 1;
+            let p = if sink_plan.is_empty() { 255 } else { sink_plan[i % sink_plan.len()] };
+            i += 1;
+            // (never two interrupts in a row: the schedule must make progress)
+            let ev = if p >= 250 { WriteEv::All } else if p % 7 == 3 && !last_intr { WriteEv::Eintr } else { WriteEv::Accept(((p as u16) << 8 | p as u16).max(floor)) };
+            last_intr = ev == WriteEv::Eintr;
+            run.ss.borrow_mut().next_write = Some(ev);
+            if let Err(e) = run.conn.try_write() {
+                return Err(Fail::new("C05:connection", format!("try_write failed with {:?} on a stream that accepts data", e)));
+            }
+        }
+        run.ss.borrow_mut().next_write = None;
+        let got = run.ss.borrow().out.clone();
+        if got != concat {
+            let at = got.iter().zip(concat.iter()).position(|(a, b)| a != b).unwrap_or(got.len().min(concat.len()));
+            return Err(Fail::new("C05:connection", format!("{} responses written through a connection in chunks: {} bytes received, {} expected, first difference at {}", items.len(), got.len(), concat.len(), at)));
+        }
     }
     // (iii) round trip of the concatenation
     if delimited {
